@@ -214,6 +214,8 @@ impl<'a> MlpgGlobalVariance<'a> {
 
         #[allow(clippy::needless_range_loop)]
         for t in 0..self.mtx.length {
+            #[cfg(jbonsai_verif)]
+            crate::verif::yield_point(23);
             g[t] = self.mtx.wuw[t][0] * self.par[t];
             for i in 1..self.mtx.width {
                 if t + i < self.mtx.length {
@@ -251,6 +253,8 @@ impl<'a> MlpgGlobalVariance<'a> {
 
         #[allow(clippy::needless_range_loop)]
         for t in 0..length {
+            #[cfg(jbonsai_verif)]
+            crate::verif::yield_point(24);
             let h = -W1 * w * self.mtx.wuw[t][0]
                 - W2 * 2.0 / (length * length) as f64
                     * ((length - 1) as f64 * gv_vari * (vari - gv_mean)
@@ -296,6 +300,8 @@ impl<'a> MlpgGlobalVariance<'a> {
             }
 
             self.next_step(g, step, mean, vari, gv_mean, gv_vari);
+            #[cfg(jbonsai_verif)]
+            crate::verif::yield_point(25);
 
             prev = obj;
         }
